@@ -1732,28 +1732,14 @@ func (e *Exec) next(fr *Frame, x *ssa.Next) Value {
 		if it.pos >= len(it.str.b) {
 			return TupleVal{t.False(), t.Const(64, 0), t.Const(32, 0)}
 		}
-		// UTF-8 decoding: ASCII fast path decided per byte; multi-byte
-		// sequences are decoded natively when concrete.
-		b0 := it.str.b[it.pos]
-		isASCII := t.Cmp(OUlt, b0, t.Const(8, 0x80))
-		if e.branch(isASCII) {
-			p := it.pos
-			it.pos++
-			return TupleVal{t.True(), t.Const(64, uint64(p)), t.ZExt(b0, 32)}
-		}
-		// non-ASCII: need concrete bytes for up to 4 positions
-		end := it.pos + 4
-		if end > len(it.str.b) {
-			end = len(it.str.b)
-		}
-		buf := make([]byte, 0, 4)
-		for i := it.pos; i < end; i++ {
-			buf = append(buf, byte(e.concretize(it.str.b[i])))
-		}
-		r, size := decodeRune(buf)
+		// UTF-8 decoding over symbolic bytes: a cascade of range branches that
+		// mirrors unicode/utf8.DecodeRuneInString (lead-byte class, accepted
+		// ranges of the second byte, continuation bytes); the rune value stays a
+		// term. Invalid or truncated sequences yield (U+FFFD, width 1).
+		r, size := e.decodeRuneSym(it.str.b[it.pos:])
 		p := it.pos
 		it.pos += size
-		return TupleVal{t.True(), t.Const(64, uint64(p)), t.Const(32, uint64(r))}
+		return TupleVal{t.True(), t.Const(64, uint64(p)), r}
 	}
 	for it.pos < len(it.entries) {
 		en := it.entries[it.pos]
@@ -1782,6 +1768,60 @@ func (e *Exec) zeroOrNil(t types.Type) (v Value) {
 		}
 	}()
 	return e.zero(t)
+}
+
+// inRange: lo <= b <= hi as a branch.
+func (e *Exec) inRange(b *Node, lo, hi uint64) bool {
+	t := e.tb
+	return e.branch(t.BAnd(t.Cmp(OUle, t.Const(8, lo), b), t.Cmp(OUle, b, t.Const(8, hi))))
+}
+
+func (e *Exec) decodeRuneSym(b []*Node) (*Node, int) {
+	t := e.tb
+	bad := t.Const(32, 0xFFFD)
+	b0 := b[0]
+	if e.branch(t.Cmp(OUlt, b0, t.Const(8, 0x80))) {
+		return t.ZExt(b0, 32), 1
+	}
+	cont := func(x *Node) *Node { return t.ZExt(t.Bin(OAnd, x, t.Const(8, 0x3F)), 32) }
+	shl := func(x *Node, k uint64) *Node { return t.Bin(OShl, x, t.Const(32, k)) }
+	or := func(x, y *Node) *Node { return t.Bin(OOr, x, y) }
+	switch {
+	case e.inRange(b0, 0xC2, 0xDF):
+		if len(b) < 2 || !e.inRange(b[1], 0x80, 0xBF) {
+			return bad, 1
+		}
+		return or(shl(t.ZExt(t.Bin(OAnd, b0, t.Const(8, 0x1F)), 32), 6), cont(b[1])), 2
+	case e.inRange(b0, 0xE0, 0xEF):
+		if len(b) < 3 {
+			return bad, 1
+		}
+		lo, hi := uint64(0x80), uint64(0xBF)
+		if e.branch(t.Eq(b0, t.Const(8, 0xE0))) {
+			lo = 0xA0
+		} else if e.branch(t.Eq(b0, t.Const(8, 0xED))) {
+			hi = 0x9F
+		}
+		if !e.inRange(b[1], lo, hi) || !e.inRange(b[2], 0x80, 0xBF) {
+			return bad, 1
+		}
+		return or(or(shl(t.ZExt(t.Bin(OAnd, b0, t.Const(8, 0x0F)), 32), 12), shl(cont(b[1]), 6)), cont(b[2])), 3
+	case e.inRange(b0, 0xF0, 0xF4):
+		if len(b) < 4 {
+			return bad, 1
+		}
+		lo, hi := uint64(0x80), uint64(0xBF)
+		if e.branch(t.Eq(b0, t.Const(8, 0xF0))) {
+			lo = 0x90
+		} else if e.branch(t.Eq(b0, t.Const(8, 0xF4))) {
+			hi = 0x8F
+		}
+		if !e.inRange(b[1], lo, hi) || !e.inRange(b[2], 0x80, 0xBF) || !e.inRange(b[3], 0x80, 0xBF) {
+			return bad, 1
+		}
+		return or(or(or(shl(t.ZExt(t.Bin(OAnd, b0, t.Const(8, 0x07)), 32), 18), shl(cont(b[1]), 12)), shl(cont(b[2]), 6)), cont(b[3])), 4
+	}
+	return bad, 1
 }
 
 func decodeRune(b []byte) (rune, int) {
